@@ -8,10 +8,15 @@ RSTUBS = ['_ZN8Pistache4Http7MessageC2ERKS1_', '_ZN8Pistache4Http7MessageD2Ev', 
           '_ZN8Pistache4Rest15SegmentTreeNode16sanitizeResourceERKNSt7__cxx1112basic_stringIcSt11char_traitsIcESaIcEEE', '_ZNK8Pistache4Rest6Router21invokeNotFoundHandlerERKNS_4Http7RequestENS2_14ResponseWriterE',
           '_ZNK8Pistache4Rest5Route13invokeHandlerIJNS0_7RequestENS_4Http14ResponseWriterEEEEvDpOT_', '_ZN8Pistache5Async7PromiseIlED2Ev', '_ZN8Pistache5Async7PromiseIlED0Ev']
 ADD = '_ZN8Pistache4Rest15SegmentTreeNode8addRouteERKSt17basic_string_viewIcSt11char_traitsIcEERKSt8functionIFNS0_5Route6ResultENS0_7RequestENS_4Http14ResponseWriterEEERKSt10shared_ptrIcE'
-UNITS = {'add': dict(src=ROUTER, mode='sel', roots=[ADD], selfcall={ADD: 'vp_rec_addRoute'}),
+REM = '_ZN8Pistache4Rest15SegmentTreeNode11removeRouteERKSt17basic_string_viewIcSt11char_traitsIcEE'
+UNITS = {'rem': dict(src=ROUTER, mode='sel', roots=[REM], selfcall={REM: 'vp_rec_removeRoute'}),
+         'add': dict(src=ROUTER, mode='sel', roots=[ADD], selfcall={ADD: 'vp_rec_addRoute'}),
          'route': dict(src=ROUTER, mode='sel', roots=[ROUTE], stubs=RSTUBS, selfcall={FIND: 'vp_rec_findRoute'}),
          'find': dict(src=ROUTER, mode='sel', roots=[FIND], selfcall={FIND: 'vp_rec_findRoute'})}
 HARNESSES = [
+  dict(name='remove_step', units=['rem'], file='c10_remove.c', defs={}, unwind=5, hunwind=34, timeout=900,
+       bound='ONE level of removeRoute on an arbitrary node: 0..1 fixed / parameter / optional child (keys of 1..2 bytes), wildcard child or not, route or not; pattern empty or a first segment of 1..3 arbitrary bytes with or without a lower pattern; the child reports itself empty or not (induction hypothesis)',
+       desc='removeRoute step: the right child is asked about exactly the lower pattern and dropped iff it became empty; a missing child is refused; no sibling and not the node route is touched; the result says whether THIS node is now empty'),
   dict(name='add_step', units=['add'], file='c10_add.c', defs={}, unwind=5, hunwind=34, timeout=900,
        bound='ONE level of addRoute on an arbitrary node: 0..1 existing fixed / parameter / optional child (keys of 1..2 bytes), wildcard child or not, route or not; pattern empty or a first segment of 1..3 arbitrary bytes with or without a lower pattern of 0..2 bytes',
        desc='addRoute step with the real getSegmentType: segment kind, refusals, reuse or single creation of the child under exactly the segment key, lower pattern and handler passed on, route installed or duplicate refused'),
